@@ -109,6 +109,14 @@ def gen_cases(r: Run):
             # "every non-empty pattern with positive total intensity" — powers of two keep every value exact
             k = Fraction(1, 2 ** 70) if li % 10 == 7 else Fraction(2 ** 120)
             l = [(m, i * k) for m, i in l]
+        if li % 10 == 1 and sp is None and n >= 3:
+            # near-duplicate peaks (fine-structure doublets, dense clusters): m/z 2^-12 apart and intensities within 1e-3 of one
+            # another — closer than the tolerance of `Peak ==` — next to a few ordinary peaks; thresholds fall among them
+            m0 = l[0][0]
+            small = [(m0 + i * Fraction(1, 4096), dy(rng.randint(100, 2000))) for i in range(n - 2)]
+            l = small + [(m0 + 1, dy(rng.randint(GRID // 4, GRID // 2))), (m0 + 2, dy(rng.randint(GRID // 8, GRID // 4)))]
+            if li % 20 == 1:
+                l = l[-2:] + small      # ... and with the cluster after the big peaks
         inexact = False
         if li % 10 in (3, 5) and sp is None:
             # magnitudes drawn per peak: a dominant last / first peak, a subnormal tail, or fully independent exponents
